@@ -112,15 +112,45 @@ Proof.
   intros k x Hx. unfold pow2_le. rewrite Z.leb_le. symmetry. apply Z.log2_le_pow2. exact Hx.
 Qed.
 
+(* 2^k <= b^e for b >= 1, e >= 1: the same test, but b^e is only built when the answer does not
+   already follow from floor(log2 b):  e*fl <= log2(b^e) < e*(fl+1) *)
+Definition pow_ge_pow2 (k b e : Z) : bool :=
+  let fl := Z.log2 b in
+  if k <=? e * fl then true
+  else if e * (fl + 1) <=? k then false
+  else pow2_le k (b ^ e).
+Lemma pow_ge_pow2_eq : forall k b e, 1 <= b -> 1 <= e -> pow_ge_pow2 k b e = pow2_le k (b ^ e).
+Proof.
+  intros k b e Hb He. unfold pow_ge_pow2, pow2_le. cbn zeta.
+  pose proof (Z.log2_nonneg b) as Hfl.
+  assert (Hpos : 0 < b ^ e) by (apply Z.pow_pos_nonneg; lia).
+  destruct (Z.log2_spec b ltac:(lia)) as [Hlo Hhi].
+  assert (H1 : e * Z.log2 b <= Z.log2 (b ^ e)).
+  { apply Z.log2_le_pow2; [exact Hpos|]. rewrite Z.mul_comm, Z.pow_mul_r by lia.
+    apply Z.pow_le_mono_l. split; [apply Z.pow_nonneg; lia|exact Hlo]. }
+  assert (H2 : Z.log2 (b ^ e) < e * (Z.log2 b + 1)).
+  { apply Z.log2_lt_pow2; [exact Hpos|]. rewrite Z.mul_comm, Z.pow_mul_r by lia.
+    apply Z.pow_lt_mono_l; [lia|]. split; [lia|]. exact Hhi. }
+  destruct (k <=? e * Z.log2 b) eqn:Ha.
+  - apply Z.leb_le in Ha. symmetry. apply Z.leb_le. lia.
+  - destruct (e * (Z.log2 b + 1) <=? k) eqn:Hc; [|reflexivity].
+    apply Z.leb_le in Hc. symmetry. apply Z.leb_gt. lia.
+Qed.
+Lemma pow_ge_pow2_spec : forall k b e, 1 <= b -> 1 <= e -> (pow_ge_pow2 k b e = true <-> 2 ^ k <= b ^ e).
+Proof.
+  intros k b e Hb He. rewrite pow_ge_pow2_eq by assumption.
+  apply pow2_le_spec. apply Z.pow_pos_nonneg; lia.
+Qed.
+
 (* red-black: q <= 2*log2(n+1) + 2 over the reals
    <-> (q-2)/2 <= log2(n+1) <-> 2^((q-2)/2) <= n+1 <-> 2^(q-2) <= (n+1)^2   (q >= 2; trivially true
    for q < 2 because log2(n+1) >= 0 for n >= 0).  A negative size satisfies nothing. *)
 Definition rb_cost_ok (n q : Z) : bool :=
-  (0 <=? n) && ((q <? 2) || pow2_le (q - 2) ((n + 1) ^ 2)).
+  (0 <=? n) && ((q <? 2) || pow_ge_pow2 (q - 2) (n + 1) 2).
 
 (* AVL: q <= 1.45*log2(n+2) + 2 <-> 20*(q-2) <= 29*log2(n+2) <-> 2^(20*(q-2)) <= (n+2)^29 *)
 Definition avl_cost_ok (n q : Z) : bool :=
-  (0 <=? n) && ((q <? 2) || pow2_le (20 * (q - 2)) ((n + 2) ^ 29)).
+  (0 <=? n) && ((q <? 2) || pow_ge_pow2 (20 * (q - 2)) (n + 2) 29).
 
 (* the least L >= 0 with x < c^(L+1), i.e. floor(log_c x), for c >= 2 and x >= 1 *)
 Fixpoint ilog_aux (fuel : nat) (c p x : Z) : Z :=
@@ -144,8 +174,8 @@ Lemma rb_cost_ok_spec : forall n q,
 Proof.
   intros n q. unfold rb_cost_ok. rewrite andb_true_iff, orb_true_iff, Z.leb_le, Z.ltb_lt.
   split; intros [Hn H]; (split; [exact Hn|]).
-  - destruct H as [H|H]; [left; exact H|right]. apply pow2_le_spec; [apply Z.pow_pos_nonneg; lia|exact H].
-  - destruct H as [H|H]; [left; exact H|right]. apply pow2_le_spec; [apply Z.pow_pos_nonneg; lia|exact H].
+  - destruct H as [H|H]; [left; exact H|right]. apply pow_ge_pow2_spec; [lia|lia|exact H].
+  - destruct H as [H|H]; [left; exact H|right]. apply pow_ge_pow2_spec; [lia|lia|exact H].
 Qed.
 
 Lemma avl_cost_ok_spec : forall n q,
@@ -153,8 +183,8 @@ Lemma avl_cost_ok_spec : forall n q,
 Proof.
   intros n q. unfold avl_cost_ok. rewrite andb_true_iff, orb_true_iff, Z.leb_le, Z.ltb_lt.
   split; intros [Hn H]; (split; [exact Hn|]).
-  - destruct H as [H|H]; [left; exact H|right]. apply pow2_le_spec; [apply Z.pow_pos_nonneg; lia|exact H].
-  - destruct H as [H|H]; [left; exact H|right]. apply pow2_le_spec; [apply Z.pow_pos_nonneg; lia|exact H].
+  - destruct H as [H|H]; [left; exact H|right]. apply pow_ge_pow2_spec; [lia|lia|exact H].
+  - destruct H as [H|H]; [left; exact H|right]. apply pow_ge_pow2_spec; [lia|lia|exact H].
 Qed.
 
 (* the floor form of the red-black bound (the one proved for the model, RBBounds.C07_rb_cost, is
